@@ -11,7 +11,11 @@ MCPartials == <<>>
 
 A1 == <<S("a"), S("b")>>                       A2 == <<SQ("a", "\""), SQ("b", "\"")>>
 N1 == <<I(10), I(2), I(3)>>                   N2 == <<IntT("1e1", 10), I(2), I(3)>>
-MCPool == {Cycle("", A1, "|a,b"), Cycle("", A2, "|a,b"), Cycle("", N1, "|10,2,3"), Cycle("", N2, "|10,2,3"),
+\* groups that differ only in values a hash function may confuse (in CPython -1 and -2, 1 and 1.0 hash alike)
+M1 == <<I(-1), I(0)>>                          M2 == <<I(-2), I(0)>>
+F1 == <<I(1), I(2)>>                           F2 == <<FloatE("1.0", 10, 1), FloatE("2.0", 20, 1)>>
+MCPool == {Cycle("", M1, "|-1,0"), Cycle("", M2, "|-2,0"), Cycle("", F1, "|1,2"), Cycle("", F2, "|1.0,2.0"),
+           Cycle("", A1, "|a,b"), Cycle("", A2, "|a,b"), Cycle("", N1, "|10,2,3"), Cycle("", N2, "|10,2,3"),
            Cycle("g", A1, "g|a,b"), Quoted(Cycle("g", A2, "g|a,b")), Cycle("h", A1, "h|a,b"),
            Cycle("", <<V("x"), V("y")>>, "|x,y"), NText("-")}
 MCPoolAt(i) == MCPool
